@@ -145,6 +145,16 @@ func (t *Table) comparableValues(m map[string]interface{}) map[string]interface{
 	return c
 }
 
+// hasNullValue returns whether the filter compares some column with NULL.
+func (t *Table) hasNullValue(filter Filter) bool {
+	for _, v := range t.comparableValues(filter) {
+		if v == nil {
+			return true
+		}
+	}
+	return false
+}
+
 // WithShardLimit scopes the DB to only allow queries with the given key-value
 // pairs. This means any query must include a filter for the key-value pairs in
 // the limit, and any write must have columns including the specified key-value
@@ -340,7 +350,9 @@ func (db *DB) BaseQuery(ctx context.Context, query *BaseSelectQuery) ([]interfac
 		return nil, err
 	}
 
-	if query.Options == nil && !db.HasTx(ctx) && batch.HasBatching(ctx) {
+	// A NULL filter value needs IS NULL, which the combined IN (...) / = query cannot
+	// express (NULL never compares equal), so such queries are not batched.
+	if query.Options == nil && !db.HasTx(ctx) && batch.HasBatching(ctx) && !query.Table.hasNullValue(query.Filter) {
 		rows, err := db.batchFetch.Invoke(ctx, query)
 		if err != nil {
 			return nil, err
